@@ -544,7 +544,8 @@ func (sp *subProcess) ceaseFlowMonitor(tracer tracing.ITracer) func(ctx context.
 	}
 }
 
-func (sp *subProcess) run(ctx context.Context, out tracing.ITracer) {
+func (sp *subProcess) run(ctx context.Context, out tracing.ITracer, sender tracing.ISenderHandle) {
+	defer sender.Done()
 	defer sp.cancel()
 	for {
 		select {
@@ -560,7 +561,11 @@ func (sp *subProcess) run(ctx context.Context, out tracing.ITracer) {
 					return
 				}
 			case nextActionMessage:
+				// the activation sends traces to the enclosing scope: it is a sender of its own,
+				// registered while this loop still holds its registration
+				activation := out.RegisterSender()
 				go func() {
+					defer activation.Done()
 					sp.active.Add(1)
 					defer sp.active.Add(-1)
 
@@ -622,7 +627,10 @@ func (sp *subProcess) NextAction(ctx context.Context, flow Flow) chan IAction {
 		// the monitor watches the inner flows, so it listens on (and announces the end of the
 		// inner flow to) the inner tracer, which is where run waits for it
 		go sp.ceaseFlowMonitor(sp.subTracer)(ctx, sender)
-		go sp.run(ctx, tracer)
+		// the loop sends traces to the enclosing scope's tracer: like every other node's loop
+		// it is a registered sender of it, or a trace sent after that tracer has terminated
+		// would block for ever
+		go sp.run(ctx, tracer, tracer.RegisterSender())
 	}
 
 	response := make(chan IAction, 1)
